@@ -91,7 +91,9 @@ RoundTripFixed == \A b \in AsciiBytes \cup KoiBytes : Fixed(DecodeFixed(b)) /\ E
 
 ExportString == LET o == EncodeStr(items) IN
                 PrintT(ToJson([ k |-> "S", items |-> items, ok |-> o.ok, bytes |-> o.bytes, start |-> o.start, end |-> o.end,
-                                word |-> IF o.ok /\ Len(items) \in { 1, 2 } THEN CharWord(o.bytes) ELSE 0 ]))
+                                word |-> IF o.ok /\ Len(items) \in { 1, 2 } THEN CharWord(o.bytes) ELSE 0,
+                                \* the literal taken apart again: its high byte is the second character's byte (an unsigned quantity)
+                                hi |-> IF o.ok /\ Len(items) \in { 1, 2 } THEN CharWord(o.bytes) \div 256 ELSE 0 ]))
 ExportTable == Len(items) = 0 => PrintT(ToJson([ k |-> "T", koi |-> Koi8rTable ]))
 
 (* ------------------------------------------------------------------ monitor for the enumerated codec
